@@ -48,7 +48,27 @@ def call_then_monitor(rng):
         rounds.append({'ops': {'1': [{'k': 'sleep', 'ms': 350}, {'k': 'query', 'q': 'list'}]}})
     rounds.append({'ops': {'1': [{'k': 'send', 'ty': 4, 'path': '/a', 'ifc': 'com.example.I', 'mem': 'Sig', 'sig': '', 'body': []}]}})
     rounds.append({'ops': {'1': [{'k': 'query', 'q': 'list'}]}})
+    if rng.random() < 0.7:
+        rounds.append({'ops': {'2': [monitor_speaks(rng)]}})
+        rounds.append({'ops': {'1': [{'k': 'query', 'q': 'list'}]}})
     return {'cfg': cfg or {}, 'rounds': rounds}
+
+
+def monitor_speaks(rng):
+    """something a monitor might try to say: whatever it is -- with or without a destination, any type -- the bus hangs up
+    on it and nobody (the monitor included) gets anything out of it"""
+    r = rng.random()
+    if r < 0.2:
+        return {'k': 'query', 'q': 'list'}
+    if r < 0.35:
+        return {'k': 'send', 'ty': 4, 'path': '/a', 'ifc': 'com.example.I', 'mem': 'Sig', 'sig': '', 'body': []}
+    if r < 0.5:
+        return {'k': 'send', 'ty': 1, 'dst': 'com.example.A', 'path': '/a', 'ifc': 'com.example.I', 'mem': 'Ma', 'sig': '', 'body': []}
+    if r < 0.7:
+        return {'k': 'send', 'ty': 1, 'path': '/x', 'ifc': rng.choice(['org.freedesktop.DBus.Peer', 'com.example.I']), 'mem': 'Ping', 'sig': '', 'body': []}
+    if r < 0.85:
+        return {'k': 'send', 'ty': 2, 'rs': rng.choice([1, 9001]), 'sig': '', 'body': []}
+    return {'k': 'send', 'ty': 3, 'rs': 1, 'err': 'com.example.Err', 'sig': '', 'body': []}
 
 
 def names_then_monitor(rng):
@@ -74,6 +94,9 @@ def names_then_monitor(rng):
     rounds.append({'ops': {'1': probe}})
     rounds.append({'ops': {'3': [{'k': 'rel', 'n': n} for n in theirs]}})
     rounds.append({'ops': {'1': [{'k': 'query', 'q': 'list'}] + [{'k': 'query', 'q': 'owner', 'n': n} for n in names]}})
+    if rng.random() < 0.7:
+        rounds.append({'ops': {'2': [monitor_speaks(rng)]}})
+        rounds.append({'ops': {'1': [{'k': 'query', 'q': 'list'}]}})
     return {'cfg': {}, 'rounds': rounds}
 
 
